@@ -13,7 +13,7 @@ ID = "C14"
 LEVEL = "exploration"
 REQUIRED_OUTCOMES = ["pred:accept", "pred:reject", "create:accept", "create:refuse", "roundtrip:ok"]
 
-FIXED_VERSIONS = ["1", "23", "7.1", "10.0.1", "r", "rawhide", "r1.x",
+FIXED_VERSIONS = ["1", "23", "7.1", "10.0.1", "r", "rawhide", "r1.x", "Rawhide", "RC",
                   # free-form versions that end in / are a known type name
                   "mega", "xeus", "fast", "ga", "xupdates", "eus"]
 FIXED_SHORTS = ["f", "rhel", "fedora-server", "fedora-server-23"]
